@@ -32,6 +32,17 @@ STRS = re.compile(r'"([^"]*)"')
 REPORTED = set()
 
 
+MAX_FAILING = 4
+
+
+def failing(ctx, name, detail, key):
+    """failing-input with a global cap per run (one defect usually shows up in many grid cells)"""
+    n = ctx.extra.get("failing_inputs_found", 0)
+    ctx.extra["failing_inputs_found"] = n + 1
+    if n < MAX_FAILING:
+        ctx.violation("failing-input", name, detail, key=key)
+
+
 def report_once(ctx, key, name, detail):
     """known-defect style reporting: one failing-input per stable key per run"""
     if key in REPORTED:
@@ -131,8 +142,7 @@ def binop_grid_tie(ctx, differ):
         if d is not None:
             found = True
             found_n += 1
-            ctx.violation("failing-input", "optimised IR behaves differently from unoptimised IR", d,
-                          key=f"iropt:{show_shape(s)}:{cn}")
+            failing(ctx, "optimised IR behaves differently from unoptimised IR", d, key=f"iropt:{show_shape(s)}:{cn}")
     if mism and not found:
         op, pv, a, b, r, m = mism[0]
         ctx.violation("correspondence-broken", "opt_binop model != real _optimize_binop (exact output)",
@@ -173,8 +183,7 @@ def evm_grid(ctx, differ):
                     continue
                 if found < 3:
                     found += 1
-                    ctx.violation("failing-input", "optimised IR behaves differently from unoptimised IR", d,
-                                  key=f"iropt:{show_shape(s)}:{cn}")
+                    failing(ctx, "optimised IR behaves differently from unoptimised IR", d, key=f"iropt:{show_shape(s)}:{cn}")
     # literal x literal: the constant folder against run-time evaluation (Search for arith_fold_sound)
     nl = 0
     for op in BOPS_ARITH:
@@ -189,8 +198,7 @@ def evm_grid(ctx, differ):
             nl += 1
             if d is not None and found < 3:
                 found += 1
-                ctx.violation("failing-input", "constant folding differs from run-time evaluation", d,
-                              key=f"iropt:{show_shape(s)}:value")
+                failing(ctx, "constant folding differs from run-time evaluation", d, key=f"iropt:{show_shape(s)}:value")
     # seq-level rewrites of _optimize (memzero / calldataload / mload->mcopy merges, empty seqs, if-on-literal, ...)
     from vlib.c15_evm import BASE_X, merge_programs
     nm = 0
@@ -200,8 +208,7 @@ def evm_grid(ctx, differ):
         nm += 1
         if d is not None and found < 3:
             found += 1
-            ctx.violation("failing-input", "optimised IR behaves differently from unoptimised IR (seq-level rewrite)", d,
-                          key="iropt:seq:" + str(nm))
+            failing(ctx, "optimised IR behaves differently from unoptimised IR (seq-level rewrite)", d, key="iropt:seq:" + str(nm))
     ctx.corr["evm_seq_programs"] = nm
     ctx.corr["evm_grid_programs"] = n
     ctx.corr["evm_fold_programs"] = nl
@@ -283,8 +290,7 @@ def tree_tie(ctx, differ):
         if d is not None:
             found = True
             d["tree"] = s0
-            ctx.violation("failing-input", "optimised tree behaves differently from the unoptimised tree", d,
-                          key="tree:" + s0[:80])
+            failing(ctx, "optimised tree behaves differently from the unoptimised tree", d, key="tree:" + s0[:80])
             break
     if mism and not found:
         t, ev, s0, r, m = mism[0]
@@ -362,8 +368,7 @@ def peephole_tie(ctx):
     npat, diff = c15_asm.pattern_evm_differential(Chain("cancun"), ctx.rng("asmevm"))
     ctx.corr["peephole_evm_programs"] = npat
     if diff is not None:
-        ctx.violation("failing-input", "optimize_assembly changes the result of a stack program", diff,
-                      key="asmopt:" + diff["assembly"][-60:])
+        failing(ctx, "optimize_assembly changes the result of a stack program", diff, key="asmopt:" + diff["assembly"][-60:])
     elif bad is not None:
         ctx.violation("correspondence-broken", "Peephole model != real assembly optimiser pass (exact output)", bad)
     return len(exprs) + npat
@@ -410,8 +415,7 @@ def glue_corpus(ctx):
                     d["call_detail"] = {k: (v.hex() if isinstance(v, bytes) else v) for k, v in plan[d["call"]].items()}
                 d.update({"contract": c["name"], "source": c["src"], "config_a": "legacy-none-" + evm,
                           "config_b": f"legacy-{lvl}-{evm}"})
-                ctx.violation("failing-input", f"contract behaves differently at optimize={lvl} vs none (legacy)", d,
-                              key=f"glue:{c['name']}:{lvl}:{d.get('what')}")
+                failing(ctx, f"contract behaves differently at optimize={lvl} vs none (legacy)", d, key=f"glue:{c['name']}:{lvl}:{d.get('what')}")
     ctx.corr["glue_contracts"] = n
     ctx.corr["glue_calls"] = calls
     return found, calls
@@ -431,7 +435,7 @@ def run(ctx):
     t0 = time.time()
     b = {"ok": False}
     files = ["C15/GenUtils.v", "C15/Optimizer.v", "C15/OptTree.v", "C15/FoldSound.v", "C15/PropsFold.v", "C15/OptSound.v",
-             "C15/OptTreeSound.v", "C15/MergeSound.v", "C15/PropsOpt.v", "C15/Peephole.v", "C15/PeepholeSound.v", "C15/JumpOpt.v", "C15/JumpSem.v",
+             "C15/OptTreeSound.v", "C15/MergeSound.v", "C15/MemInst.v", "C15/PropsOpt.v", "C15/Peephole.v", "C15/PeepholeSound.v", "C15/JumpOpt.v", "C15/JumpSem.v",
              "C15/JumpSound.v", "C15/JumpSound2.v", "C15/PropsPeephole.v"]
     static = ["C15/Peephole.v", "C15/PeepholeSound.v", "C15/JumpOpt.v", "C15/JumpSem.v", "C15/JumpSound.v",
               "C15/JumpSound2.v", "C15/Bytes.v"]
